@@ -182,8 +182,9 @@ def check_learn(chk, rep, repo):
         # no running-best scan: if a deep snapshot of the classifier is nevertheless taken inside the loop, the test that
         # guards it is not "this iteration beats the best accuracy so far" - which is the violation
         from ..ir import facts
-        snaps = [e for e in w.events if e.kind == "bind" and e.loops and e.value[0] == "alloc"
-                 and e.value[1] in ("copy.deepcopy", "copy.copy") and e.value[2] == (("self",),)]
+        is_snap = lambda v: v[0] == "alloc" and v[1] in ("copy.deepcopy", "copy.copy") and v[2] == (("self",),)
+        snaps = [e for e in w.events if e.kind == "bind" and e.loops and e.value is not None
+                 and (is_snap(e.value) or (e.value[0] == "tuple" and any(is_snap(x) for x in e.value[1])))]  # (or in a record)
         if snaps:
             e = snaps[0]
             own = [f for f in facts(e.guards) if f not in facts(w.loops[e.loops[0]].guards)]
@@ -335,6 +336,8 @@ def check_predict_tracking(chk, rep, repo):
 def check_mark_nodes(chk, rep, repo):
     from ..rules_premise import without_validation
     w = without_validation(graph_walk(repo, "Subgraph", "mark_nodes"))
+    from ..ir import derived_phis, substitute_view
+    w = substitute_view(w, derived_phis(w))  # `pred` carried next to `node` as node.pred
     fn = w.entry
     G = ("self",)
     ip = ("param", fn.params[1])
@@ -496,9 +499,25 @@ def check_prune(chk, rep, repo):
     if len(apps) == 2 and apps[0].guards == apps[1].guards and apps[0].loops == apps[1].loops and apps[0].loops:
         li = w.loops[apps[0].loops[-1]]
         dom = li.domain
-        if dom == ("call", ("builtin", "enumerate"), (("attr", G, "nodes"),), ()):
-            j = ("iterproj", dom, li.lid, (0,))
+        zipped = None
+        if dom is not None and dom[0] == "call" and dom[1] == ("builtin", "zip") and not dom[3] and ("attr", G, "nodes") in dom[2] \
+                and not any(isinstance(x, tuple) and x and x[0] == "star" for x in dom[2]):
+            # `for n, row, label in zip(nodes, X_train, Y_train)`: the elements met at position j (zip stops with the nodes;
+            # the arrays hold one row per node - they are what the model was last fitted on, checked below)
+            zipped = dom
+        if dom == ("call", ("builtin", "enumerate"), (("attr", G, "nodes"),), ()) or zipped is not None:
+            j = ("iterproj", dom, li.lid, (0,)) if zipped is None else ("iterproj", dom, li.lid, ("pos",))
             n = ("idx", ("attr", G, "nodes"), j)
+            if zipped is not None:
+                from ..schema import rewrite
+                import dataclasses
+
+                def unzip(u):
+                    if u[0] == "iterproj" and u[1] == dom and u[2] == li.lid and len(u[3]) == 1 and isinstance(u[3][0], int):
+                        return ("idx", dom[2][u[3][0]], j)
+                    return None
+                apps = [dataclasses.replace(e, args=tuple(rewrite(a, unzip) for a in e.args),
+                                            guards=tuple((rewrite(g, unzip), pol) for g, pol in e.guards)) for e in apps]
             outer = w.loops[li.loops[-1]] if li.loops else None
             from ..ir import facts
             guard = ("cmp", "!=", *sorted([("K", "IRRELEVANT"), ("attr", n, "relevant")], key=repr))
